@@ -29,7 +29,8 @@ ASSUMPTIONS = [
 REQUIRE = {
     "monitors": {"gradient == dNLL/dx (FD of __call__)": 10, "Hessian == d grad/dx (FD of nll_grad)": 5, "Hessian symmetric": 5,
                  "value alongside gradient/Hessian == stand-alone value": 10, "gradient independent of batch size": 8,
-                 "Hessian-vector product == H@p": 1, "transformed coordinates: gradient": 3, "transformed coordinates: Hessian": 1},
+                 "Hessian-vector product == H@p": 1, "transformed coordinates: gradient": 3, "transformed coordinates: Hessian": 1,
+                 "CombineFCN: value/gradient alongside Hessian == stand-alone": 2, "CombineFCN: Hessian == d grad/dx (directional FD)": 1},
     "cover": {"model": ["default", "extended", "cfit", "cfit_cached", "cfit_extended", "cached_int", "cached_amp", "simple"]},
     "min_nontrivial": {"quick": 8, "thorough": 200},
 }
@@ -311,6 +312,73 @@ def run(ctx):
                 vm.remove_bound()
                 with quiet():
                     fcn(dict(zip(tv, x0)))
+        # (g) simultaneous fit: the CombineFCN object's value / gradient / Hessian / Hessian-vector product are consistent with
+        # one another and with directional finite differences of its own value (constraints must enter exactly once)
+        if ((float_shapes and i % 2 == 0 and model != "cached_amp") or ctx.tier == "thorough") and model in ("default", "extended", "cfit", "cfit_extended", "cached_amp", "simple"):
+            try:
+                data2 = lik.make_sample(cfg, card, 41, rng, "positive", cfit=cfit)
+                phsp2 = lik.make_sample(cfg, card, 90, rng, "ones", cfit=cfit)
+                with quiet():
+                    opts2 = dict(opts, bg_weight=[0.3, 0.3]) if kind == "bg" else dict(opts, bg_frac=[opts["bg_frac"]] * 2)
+                    cfg2 = cards.load(card, extra_data=opts2)
+                    amp2 = cfg2.get_amplitude()
+                    amp2.set_params(p0)
+                    comb = cfg2.get_fcn([[data, data2], [phsp, phsp2], [bg, None], None], batch=40)
+                    tv2 = list(amp2.vm.trainable_vars)
+                    xd = dict(zip(tv, x0))
+                    xc = np.array([xd[k_] for k_ in tv2])
+                    # move constrained parameters off their constraint mean, otherwise the constraint gradient vanishes
+                    xc = xc + 0.01 * rng.normal(size=len(xc))
+
+                    def Fc(x):
+                        with quiet():
+                            return float(comb(dict(zip(tv2, x))))
+
+                    def Gc(x):
+                        with quiet():
+                            return np.asarray(comb.nll_grad(dict(zip(tv2, x)))[1], dtype=float)
+
+                    c0 = Fc(xc)
+                    c1, cg = comb.nll_grad(dict(zip(tv2, xc)))
+                    cg = np.asarray(cg, dtype=float)
+                    c2, cg2, cH = comb.nll_grad_hessian(dict(zip(tv2, xc)))
+                    cg2, cH = np.asarray(cg2, dtype=float), np.asarray(cH, dtype=float)
+                gmc = np.max(np.abs(cg)) + 1e-12
+                ok_v = abs(float(c1) - c0) <= 1e-9 * (1 + abs(c0)) and abs(float(c2) - c0) <= 1e-9 * (1 + abs(c0)) and \
+                    bool(np.all(np.abs(cg2 - cg) <= 1e-7 * (np.abs(cg) + 1e-3 * gmc)))
+                constr = " with gaussian constraint" if cfg2.gauss_constr_dic else ""
+                ctx.check("CombineFCN: value/gradient alongside Hessian == stand-alone", ok_v,
+                          lambda: dict(desc(), call=c0, nll_grad=float(c1), hess_value=float(c2), dg=float(np.max(np.abs(cg2 - cg)))),
+                          mechanism="CombineFCN value/gradient alongside Hessian (%s)%s" % (model, constr))
+                u = rng.normal(size=len(tv2))
+                u /= np.linalg.norm(u)
+                est = [(Fc(xc + h * u) - Fc(xc - h * u)) / (2 * h) for h in (1e-4, 5e-5)]
+                d_fd = (4 * est[1] - est[0]) / 3
+                est2 = [(Gc(xc + h * u) - Gc(xc - h * u)) / (2 * h) for h in (2e-4, 1e-4)]
+                hu_fd = (4 * est2[1] - est2[0]) / 3
+                Fc(xc)
+                d_lib = float(cg @ u)
+                if abs(est[1] - est[0]) <= 1e-4 * (abs(d_fd) + 1e-3 * gmc):
+                    ctx.check("CombineFCN: gradient == directional FD", abs(d_lib - d_fd) <= 1e-5 * (abs(d_fd) + 1e-2 * gmc),
+                              lambda: dict(desc(), lib=d_lib, fd=d_fd), mechanism="CombineFCN gradient (%s)%s" % (model, constr))
+                hscale = np.max(np.abs(hu_fd)) + 1e-12
+                if np.max(np.abs(est2[1] - est2[0])) <= 1e-3 * hscale:
+                    devc = float(np.max(np.abs(cH @ u - hu_fd)) / hscale)
+                    ctx.dev("CombineFCN H@u vs FD", devc, 1e-4)
+                    ctx.check("CombineFCN: Hessian == d grad/dx (directional FD)", devc <= 1e-4, lambda: dict(desc(), rel=devc),
+                              mechanism="CombineFCN Hessian (%s)%s" % (model, constr))
+                    if model in ("default", "extended", "cached_amp", "simple"):
+                        with quiet():
+                            _, hpc = comb.grad_hessp(dict(zip(tv2, xc)), u)
+                        devp = float(np.max(np.abs(np.asarray(hpc, dtype=float) - hu_fd)) / hscale)
+                        ctx.check("CombineFCN: Hessian == d grad/dx (directional FD)", devp <= 1e-4, lambda: dict(desc(), rel=devp),
+                                  mechanism="CombineFCN grad_hessp (%s)%s" % (model, constr))
+                else:
+                    ctx.count("skipped_ill_conditioned_combine_hessian_FD")
+                ctx.covered("combine_constraint", "gauss" if cfg2.gauss_constr_dic else "none")
+                del comb
+            except Exception as e:
+                ctx.violation("CombineFCN: value/gradient alongside Hessian == stand-alone", ctx.exc_witness(e, **desc()), mechanism="CombineFCN derivatives raise (%s)" % model)
         if i < ctx.nshards:
             ctx.sample({"model": model, "free_parameters": tv, "nll": v0, "gradient": g, "fd_gradient": fd}, limit=2)
         del fcn
